@@ -3,7 +3,7 @@ import IOptProps.C07num
 /-!
 # Compositions (worker m), part 2: `GetImage` with density `m` only produces points of the `2^m` grid
 
-For N = 2..5 and EVERY argument `x`, coordinate `i` of `getImage n m lower upper x` is
+For `Ev.DimOK N` and EVERY argument `x`, coordinate `i` of `getImage n m lower upper x` is
 `lower_i + (j + 1/2) (upper_i - lower_i) / 2^m` for a cell index `j < 2^m`.
 -/
 set_option linter.unusedSectionVars false
@@ -19,7 +19,7 @@ def OnGrid (n m : Nat) (lower upper pt : List α) : Prop :=
     ∃ j : Nat, j < 2 ^ m ∧ pt[i] = lower[i] + ((j : α) + 1 / 2) * (upper[i] - lower[i]) / 2 ^ m
 
 /-- for every argument `imageCube` is the centre of the cell of some valid digit list of length `m` -/
-theorem imageCube_some_cell {n : Nat} (hn : 2 ≤ n ∧ n ≤ 5) (m : Nat) (x : α) :
+theorem imageCube_some_cell {n : Nat} (hn : Ev.DimOK n) (m : Nat) (x : α) :
     ∃ ds, validDigits n ds ∧ ds.length = m ∧
       imageCube n m x = (cubeY n ds).map (fun (Y : Int) => (Y : α) / 2 ^ (m + 1)) := by
   rcases lt_or_ge x 0 with h0 | h0
@@ -40,12 +40,11 @@ theorem p2d_centre (m k : Nat) (l u : α) :
   ring
 
 /-- **`GetImage` lands on the grid of the configured density**, for every argument -/
-theorem getImage_onGrid {n : Nat} (hn : 2 ≤ n ∧ n ≤ 5) (m : Nat) (lower upper : List α)
+theorem getImage_onGrid {n : Nat} (hn : Ev.DimOK n) (m : Nat) (lower upper : List α)
     (hl : lower.length = n) (hu : upper.length = n) (x : α) :
     OnGrid n m lower upper (getImage n m lower upper x) := by
   obtain ⟨ds, hd, hlen, he⟩ := imageCube_some_cell hn m x
-  have hmem : n ∈ [2, 3, 4, 5] := by
-    simp only [List.mem_cons, List.not_mem_nil, or_false]; omega
+  have hmem : Ev.DimOK n := hn
   have hc := (C07_centres hmem hd).1
   have hidx := C07_centres_index hmem hd
   have hil : (imageCube n m x).length = n := by rw [he, List.length_map, hc]
